@@ -23,31 +23,37 @@ import (
 // wiring of main() itself.
 
 var (
-	shovelBinOnce sync.Once
+	shovelBinMu   sync.Mutex
 	shovelBinPath string
-	shovelBinErr  error
 )
 
 func buildShovelBinary(e *core.Env) (string, error) {
-	shovelBinOnce.Do(func() {
-		dir := filepath.Join(e.VerifDir, "harness", "bin")
-		os.MkdirAll(dir, 0o755)
-		out := filepath.Join(dir, fmt.Sprintf("shovel-under-test-%d", os.Getpid()))
-		cmd := exec.Command("go", "build", "-o", out, "./cmd/shovel")
-		cmd.Dir = e.RepoDir
-		cmd.Env = append(os.Environ(), "GOFLAGS=-mod=mod", "GOPROXY=off", "GOSUMDB=off", "GOTOOLCHAIN=local")
-		if b, err := cmd.CombinedOutput(); err != nil {
-			shovelBinErr = fmt.Errorf("building cmd/shovel: %v: %s", err, b)
-			return
+	shovelBinMu.Lock()
+	defer shovelBinMu.Unlock()
+	if shovelBinPath != "" {
+		if _, err := os.Stat(shovelBinPath); err == nil {
+			return shovelBinPath, nil
 		}
-		shovelBinPath = out
-	})
-	return shovelBinPath, shovelBinErr
+	}
+	dir := filepath.Join(e.VerifDir, "harness", "bin")
+	os.MkdirAll(dir, 0o755)
+	out := filepath.Join(dir, fmt.Sprintf("shovel-under-test-%d", os.Getpid()))
+	cmd := exec.Command("go", "build", "-o", out, "./cmd/shovel")
+	cmd.Dir = e.RepoDir
+	cmd.Env = append(os.Environ(), "GOFLAGS=-mod=mod", "GOPROXY=off", "GOSUMDB=off", "GOTOOLCHAIN=local")
+	if b, err := cmd.CombinedOutput(); err != nil {
+		return "", fmt.Errorf("building cmd/shovel: %v: %s", err, b)
+	}
+	shovelBinPath = out
+	return out, nil
 }
 
 func removeShovelBinary() {
+	shovelBinMu.Lock()
+	defer shovelBinMu.Unlock()
 	if shovelBinPath != "" {
 		os.Remove(shovelBinPath)
+		shovelBinPath = ""
 	}
 }
 
@@ -74,18 +80,29 @@ func freePort() int {
 // startShovel runs the binary with the given configuration document (pg_url is filled in) and waits
 // until its dashboard answers.
 func startShovel(e *core.Env, confDoc func(pgurl string) string, env ...string) (*shovelProc, error) {
+	pg := fakepg.New()
+	url, err := pg.Start()
+	if err != nil {
+		return nil, err
+	}
+	p, err := startShovelOn(e, url, confDoc, env...)
+	if err != nil {
+		pg.Close()
+		return nil, err
+	}
+	p.pg = pg
+	return p, nil
+}
+
+// startShovelOn: the same against a fake PostgreSQL the caller owns (it survives the process)
+func startShovelOn(e *core.Env, url string, confDoc func(pgurl string) string, env ...string) (*shovelProc, error) {
 	bin, err := buildShovelBinary(e)
 	if err != nil {
 		return nil, err
 	}
-	p := &shovelProc{pg: fakepg.New(), out: &bytes.Buffer{}}
-	url, err := p.pg.Start()
-	if err != nil {
-		return nil, err
-	}
+	p := &shovelProc{out: &bytes.Buffer{}}
 	p.dir, err = os.MkdirTemp("", "shovel-e2e-")
 	if err != nil {
-		p.pg.Close()
 		return nil, err
 	}
 	cf := filepath.Join(p.dir, "config.json")
